@@ -32,6 +32,9 @@
 //	    a fresh repository gets nProbes probe keys, nOther other keys and last 8 sentinel keys; the sentinels are polled until one
 //	    is accepted again - which proves that a clean-up with a tick past the sentinel's (hence every probe's) expiry ran -
 //	    and then every probe is presented once more: each must be accepted again (no wall-clock bound involved).
+//	stall <via> <w_ms> <stall%> <gap%> <k>:<call>:<ret>:<a|d>*  OBS lin.  The first presentation of a key is held up at the hook
+//	    dedup.isduplicate.enter for stall% of the window, the key is presented again gap% of the window later (see stall.go);
+//	    judged like a hist history, the held-up call being stamped when the hook action ends.
 //	share / sharec                                 several wrappers built from ONE Deduplicator value share its state (see share.go)
 //	idle <via> <w_ms> <workers> <budget_ms>         OBS reaccepted | stuck.  Each worker owns a repository and repeats: present a new key,
 //	    wait until the clean-up emptied the repository (Len() == 0), present the next new key at once (an arrival right
@@ -1249,6 +1252,8 @@ func runReq(req string) (string, string, error) {
 			return req, "", errors.New("ctxc args")
 		}
 		return req, runCtxConc(f[1], k, y, gs, nk), nil
+	case "stall":
+		return runStallReq(f)
 	case "share", "sharec":
 		obs, err := runShareReq(f)
 		if err != nil {
